@@ -375,8 +375,17 @@ TEXT = {
           "monitor: after every refused account block / momentum delivery the insert lock is free, an honest peer's block reaches "
           "the pool, an honest request is answered and the node produces its next momentum (class=stalled-*). Findings "
           "F7a (unknown hash panicked) and F7b (Number+Amount<=1 returned the whole chain) are fixed in d85e958 and 99f2642; their "
-          "inputs are sent on every run and a recurrence is reported as a violation.",
-  "technique": "Lean 4 proof (omega/case analysis) + regenerated constants and AST facts + differential correspondence over p2p.MsgPipe",
+          "inputs are sent on every run and a recurrence is reported as a violation. The devp2p base protocol (disconnect reasons and "
+          "payload shapes, ping/pong payloads, repeated / altered handshakes, unknown codes — after and instead of the handshake) and the "
+          "downloader / fetcher under scripted hostile peers (sync peer silent at seven stages with a bystander's unsolicited packs, 22 "
+          "kinds of hostile answers, hostile helpers, import batches assembled from two peers) are exercised by the monitor-only stream "
+          "p2p-net on a node in a child process behind a real p2p.Server with raw RLPx clients; monitors: process survival, the node "
+          "reaches the honest peer's height within deadlines derived from the real time-outs, honest peers are never disconnected, the "
+          "peer that delivered a refused momentum is. All p2p streams run with production-like logging (every record formatted at debug "
+          "level). Known, not repaired: FU1 (errInvalidChain from any peer's mis-numbered block pack drops the honest origin peer), FU2 "
+          "(stale processCh value after a cancelled synchronisation stalls the downloader for ever; timing dependent).",
+  "technique": "Lean 4 proof (omega/case analysis) + regenerated constants and AST facts + differential correspondence over p2p.MsgPipe + "
+               "scenario monitors on a node process behind a real p2p.Server",
  },
  "C16": {
   "text": "Kernel-checked theorems over a line-by-line model of chainBridge.InsertChain on an abstract chain with a verification "
@@ -386,12 +395,16 @@ TEXT = {
           "one included) are no-ops; no panic for any node and batch; a batch whose first unknown momentum claims height 0, 1 or "
           "frontier+2 and above is refused with the link error and the node untouched; every non-verification refusal leaves the "
           "node as it was. Tied by AST facts (window 30, operators, order of the tests incl. the emptiness and nil-target tests, "
-          "returned indices) "
-          "and a differential stream feeding followers through the real InsertChain.",
+          "returned indices; nothing is read from the node before the insert lock is taken and the lock is released by a deferred "
+          "Unlock — theorem insertChain_reads_under_lock — so the model's node is the chain at insertion time) "
+          "and a differential stream feeding followers through the real InsertChain, including deliveries that wait for the insert "
+          "lock while the node's chain grows.",
   "design_ref": "§3 C16",
   "note": "Verification itself (verifier/*, vm) is an oracle here; the account-block side is monitored model-free: one account block of "
           "a delivered momentum altered by type and position (30 mutations), after every delivery the node's chain and its pool of "
-          "unconfirmed blocks hold only the producer's bytes, and the genuine version of a refused batch is adopted next. "
+          "unconfirmed blocks hold only the producer's bytes, and the genuine version of a refused batch is adopted next; momentums "
+          "delivered with one more account block than they list (a block of a sibling momentum, valid on its own on the same state, "
+          "at the front / middle / end; a block of another momentum of the batch) must be refused at that element. "
           "Known finding F7d (rollback before verification) is open (and F9, owned by C13, is visible here as a pooled user block "
           "with an altered ChangesHash); "
           "F7c (panics on empty / non-linking-by-height batches) was fixed in 264f72a, F7e (stale-parent momentum silently dropped "
